@@ -21,6 +21,7 @@ EXPLANATION = (
     "layer of the distributor's result to removeOverlap once, with the bounds/spacing projected from its options "
     "(C01.ALLLAYERS); plus the feasibility structure of the solver (VPSC.FEAS pack).  Not decided: the solver's "
     "arithmetic beyond that structure and the numeric <=1-unit rounding account."
+    '  Also part of this check: complete stub chains (C04.STUBCHAIN: a stub in the wrong layer is an extra item of that layer), no option or layout caches (C01.STATE), and that the solver takes over every constraint it is given (VPSC.ALLCS).'
 )
 ASSUMPTIONS = ["list.sort / sorted are stable", "options passed by callers are dicts"]
 
